@@ -143,11 +143,46 @@ fn with_accounts(ps: &[&P]) -> Txn {
 
 /// Run one (prec, history, txn) case and judge it by C01's clauses.
 pub fn judge_case(prec: &Prec, hist: &[Txn], txn: &Txn) -> (String, Box<dyn FnOnce() -> Outcome>) {
-    let header = rl::prec_header(prec);
+    judge_case_v(prec, hist, txn, Variant::Plain)
+}
+
+#[derive(Clone, Copy, PartialEq, Eq, Debug)]
+pub enum Variant {
+    Plain,
+    /// every commodity with a declared precision is declared a second time, without a `format` line: the precision stays
+    Redeclared,
+    /// CRLF line ends, and the first posting of every transaction carries a trailing `; n` comment, so that some amounts
+    /// end their line and others do not
+    CrlfWithComments,
+}
+
+pub fn judge_case_v(prec: &Prec, hist: &[Txn], txn: &Txn, variant: Variant) -> (String, Box<dyn FnOnce() -> Outcome>) {
+    let mut header = rl::prec_header(prec);
+    if variant == Variant::Redeclared {
+        for (c, _) in prec {
+            header.push_str(&format!("commodity {}\n\n", c));
+        }
+    }
     let mut all: Vec<Txn> = hist.to_vec();
     all.push(txn.clone());
     let r = rl::render(&header, &all, &|_, _, a| a.to_string());
-    let text = r.text.clone();
+    let text = if variant == Variant::CrlfWithComments {
+        let firsts: std::collections::BTreeSet<usize> = r.posting_lines.iter().filter_map(|pl| pl.first().copied()).collect();
+        let mut out = String::new();
+        for (i, l) in r.text.split_inclusive('\n').enumerate() {
+            let body = l.trim_end_matches('\n');
+            out.push_str(body);
+            if firsts.contains(&(i + 1)) && all.iter().zip(&r.posting_lines).any(|(t, pl)| pl.first() == Some(&(i + 1)) && t[0].amt.is_some() && t[0].bal == crate::refledger::Bal::None) {
+                out.push_str(" ; n");
+            }
+            if l.ends_with('\n') {
+                out.push_str("\r\n");
+            }
+        }
+        out
+    } else {
+        r.text.clone()
+    };
     let prec = prec.clone();
     let hist: Vec<Txn> = hist.to_vec();
     let txn = txn.clone();
@@ -308,6 +343,48 @@ fn run(ctx: &mut Ctx) {
             emit(ctx, &precs[0], &long, &[a]);
             for b in &ah {
                 emit(ctx, &precs[0], &long, &[a, b]);
+            }
+        }
+    }
+    // (6) two renderings of the same ledgers: commodities declared twice (the second time without `format`), and CRLF
+    // files in which some amounts end their line and others are followed by a comment. All 1- and 2-posting
+    // transactions over the full alphabet, 3-posting ones over the reduced alphabet of (4), empty history and history 1
+    for variant in [Variant::Redeclared, Variant::CrlfWithComments] {
+        let ps: &[Prec] = if variant == Variant::Redeclared { &precs[1..] } else { &precs[..2] };
+        for prec in ps {
+            for hist in [&empty, &hists[1]] {
+                let mut emit_v = |ctx: &mut Ctx, sel: &[&P]| {
+                    if !ctx.next_is_mine() {
+                        ctx.skip_cases(1);
+                        return;
+                    }
+                    let txn = with_accounts(sel);
+                    let (desc, run) = judge_case_v(prec, hist, &txn, variant);
+                    ctx.case(
+                        || format!("[{:?}]\n{}", variant, desc),
+                        || {
+                            let o = run();
+                            match o.verdict {
+                                crate::fw::Verdict::Violation { sig, detail } => Outcome::violation(format!("{}/{:?}", sig, variant), detail),
+                                _ => o,
+                            }
+                        },
+                    );
+                };
+                for a in &full {
+                    emit_v(ctx, &[a]);
+                    for b in &full {
+                        emit_v(ctx, &[a, b]);
+                    }
+                }
+                let a3v = reduced(&full, 20);
+                for a in &a3v {
+                    for b in &a3v {
+                        for c in &a3v {
+                            emit_v(ctx, &[a, b, c]);
+                        }
+                    }
+                }
             }
         }
     }
